@@ -219,3 +219,19 @@ Proof.
   induction ms as [|m ms IH]; intros st H; cbn [fold_left]; [exact H|].
   apply IH. unfold handle. destruct (stored_by me m && state_bearing m); [apply sput_keys_nodup, H|exact H].
 Qed.
+
+(* ---- deleting an expired message removes that message and nothing else ---- *)
+Lemma sdel_keeps_others : forall st m k m', sget st k = Some m' -> smsg_eqb m' m = false -> sget (sdel st m) k = Some m'.
+Proof.
+  induction st as [|[k0 m0] t IH]; intros m k m' H E; cbn [sget sdel] in *; [discriminate|].
+  destruct (k =? k0) eqn:Ek.
+  - injection H as <-. rewrite E, andb_false_r. cbn [sget]. rewrite Ek. reflexivity.
+  - destruct ((k0 =? s_code m) && smsg_eqb m0 m); [apply IH; assumption|].
+    cbn [sget]. rewrite Ek. apply IH; assumption.
+Qed.
+Lemma sdel_absent : forall st m k, sget st k = None -> sget (sdel st m) k = None.
+Proof.
+  induction st as [|[k0 m0] t IH]; intros m k H; cbn [sget sdel] in *; [reflexivity|].
+  destruct (k =? k0) eqn:Ek; [discriminate|].
+  destruct ((k0 =? s_code m) && smsg_eqb m0 m); [apply IH; exact H|]. cbn [sget]. rewrite Ek. apply IH; exact H.
+Qed.
